@@ -79,6 +79,10 @@ pub struct RunOpts {
     pub trace_paths: Vec<PathBuf>,
     pub timeout_s: u64,
     pub verbose: u8,
+    /// how the two directories are spelled on the command line: 0 absolute, 1 relative to the working directory,
+    /// 2 absolute with trailing slash, 3 './name/' relative, 4 absolute with '/../name' and '/./' detours;
+    /// styles != 0 also set TZ to a far-off POSIX zone (only log timestamps may depend on it)
+    pub path_style: u8,
     /// binary to run instead of the default debug build (release-build passes)
     pub bin: Option<PathBuf>,
     /// when this text appears on stdout, stop the process (SIGSTOP) for that many seconds, then
@@ -88,7 +92,7 @@ pub struct RunOpts {
 
 impl RunOpts {
     pub fn new(coin: Coin, callback: Callback) -> RunOpts {
-        RunOpts { coin, start: None, end: None, verify: false, callback, threads: None, fsize: None, nofile: None, pin: false, inject: None, trace: None, trace_paths: vec![], timeout_s: std::env::var("VP_TIMEOUT").ok().and_then(|v| v.parse().ok()).unwrap_or(90), verbose: 0, bin: None, pause_on: None }
+        RunOpts { coin, start: None, end: None, verify: false, callback, threads: None, fsize: None, nofile: None, pin: false, inject: None, trace: None, trace_paths: vec![], timeout_s: std::env::var("VP_TIMEOUT").ok().and_then(|v| v.parse().ok()).unwrap_or(90), verbose: 0, path_style: 0, bin: None, pause_on: None }
     }
 }
 
@@ -251,7 +255,34 @@ pub fn run_tool(datadir: &Path, dump: &Path, o: &RunOpts) -> Result<RunOut, Stri
 
 fn run_tool_once(datadir: &Path, dump: &Path, o: &RunOpts) -> Result<RunOut, String> {
     let bin = o.bin.clone().unwrap_or_else(tool_bin);
-    let mut args: Vec<String> = vec!["-d".into(), datadir.display().to_string(), "-c".into(), o.coin.cli().into()];
+    let mut cwd: Option<std::path::PathBuf> = None;
+    let (mut dstr, mut dumpstr) = (datadir.display().to_string(), dump.display().to_string());
+    let style = if o.inject.is_some() || o.trace.is_some() { 0 } else { o.path_style };
+    if let (true, Some(p1), Some(p2), Some(dn), Some(un)) = (style != 0, datadir.parent(), dump.parent(), datadir.file_name().and_then(|n| n.to_str()), dump.file_name().and_then(|n| n.to_str())) {
+        if p1 == p2 {
+            match style {
+                1 => {
+                    dstr = dn.to_string();
+                    dumpstr = un.to_string();
+                    cwd = Some(p1.to_path_buf());
+                }
+                2 => {
+                    dstr.push('/');
+                    dumpstr.push('/');
+                }
+                3 => {
+                    dstr = format!("./{}/", dn);
+                    dumpstr = format!("./{}//", un);
+                    cwd = Some(p1.to_path_buf());
+                }
+                _ => {
+                    dstr = format!("{}/../{}", dstr, dn);
+                    dumpstr = format!("{}/./", dumpstr);
+                }
+            }
+        }
+    }
+    let mut args: Vec<String> = vec!["-d".into(), dstr, "-c".into(), o.coin.cli().into()];
     if let Some(s) = o.start {
         args.push("-s".into());
         args.push(s.to_string());
@@ -268,7 +299,7 @@ fn run_tool_once(datadir: &Path, dump: &Path, o: &RunOpts) -> Result<RunOut, Str
     }
     args.push(o.callback.cli().into());
     if o.callback.has_dump() {
-        args.push(dump.display().to_string());
+        args.push(dumpstr);
     }
     let io_dir = dump.parent().unwrap_or(dump).join(format!("io-{}", COUNTER.fetch_add(1, Ordering::SeqCst)));
     std::fs::create_dir_all(&io_dir).map_err(|e| e.to_string())?;
@@ -305,6 +336,20 @@ fn run_tool_once(datadir: &Path, dump: &Path, o: &RunOpts) -> Result<RunOut, Str
     cmd.stderr(Stdio::piped());
     let _ = (&out_path, &err_path);
     cmd.env("HOME", io_dir.display().to_string());
+    if let Some(d) = &cwd {
+        cmd.current_dir(d);
+    }
+    match style {
+        0 => {
+            cmd.env_remove("TZ");
+        }
+        1 | 3 => {
+            cmd.env("TZ", "XXX-14");
+        }
+        _ => {
+            cmd.env("TZ", "YYY+11:30");
+        }
+    }
     cmd.env_remove("RUST_LOG");
     cmd.env("RUST_BACKTRACE", "0");
     match o.threads {
